@@ -51,7 +51,7 @@ def structured_family():
     """accepted programs aimed at mechanisms through which declaration order could leak: (name, program in dependency order).
     The reference is evaluated on the given (dependency) order; every permutation must reproduce it."""
     from bsyntax import (Program, Func, Class, Ctor, Method, Field, Param, P, C, VOID, I, S, Var, New, Decl, Echo, Ret, Expr, Call,
-                         MCall, SCall, Asg, Bin, Fld, FAsg, This, SFld, Super)
+                         MCall, SCall, Asg, Bin, Fld, FAsg, SFAsg, This, SFld, Super, Null, Bool, If)
     out = []
     counter = Class("Counter", "", [Field(P("int"), "n")],
                     [Method("bump", [], P("int"), [Expr(FAsg(This(), "n", Bin("+", Fld(This(), "n"), I(1)))), Ret(Fld(This(), "n"))])],
@@ -141,6 +141,29 @@ def structured_family():
     out.append(("static initialisers calling into classes not yet initialised", Program([
         Func("main", [], VOID, [Echo(SFld("Plan", "budget")), Echo(SCall("Rates", "next")), Echo(SFld("Vault", "opening")), Decl(C("Token"), "t", New("Token")), Echo(MCall(Var("t"), "value"))])],
         [rates, plan, token, vault])))
+    # 11. two generic classes using the same type-parameter name with different bounds, each passing a T to the same overloaded method
+    animal = Class("Animal", "", [], [Method("name", [], P("str"), [Ret(S("animal"))], virtual=True)], [Ctor([], [], default=True)], [])
+    dog = Class("Dog", "Animal", [], [Method("name", [], P("str"), [Ret(S("dog"))], override=True)], [Ctor([], [Super()])], [])
+    feeder = Class("Feeder", "", [], [Method("feed", [Param(C("Animal"), "a")], P("str"), [Ret(Bin("+", S("hay for the "), MCall(Var("a"), "name")))]),
+                                      Method("feed", [Param(C("Dog"), "d")], P("str"), [Ret(Bin("+", S("biscuits for the "), MCall(Var("d"), "name")))])], [Ctor([], [], default=True)], [])
+    cage = dict(Class("Cage", "", [Field(P("T"), "occupant")], [Method("serve", [Param(C("Feeder"), "f")], P("str"), [Ret(MCall(Var("f"), "feed", Fld(This(), "occupant")))])],
+                      [Ctor([Param(P("T"), "t")], [Expr(FAsg(This(), "occupant", Var("t")))])], [], tparams=["T"]), tbounds={"T": "Animal"})
+    kennel = dict(Class("Kennel", "", [Field(P("T"), "occupant")], [Method("serve", [Param(C("Feeder"), "f")], P("str"), [Ret(MCall(Var("f"), "feed", Fld(This(), "occupant")))])],
+                        [Ctor([Param(P("T"), "t")], [Expr(FAsg(This(), "occupant", Var("t")))])], [], tparams=["T"]), tbounds={"T": "Dog"})
+    out.append(("same type-parameter name, different bounds, one overloaded callee", Program([
+        Func("main", [], VOID, [Decl(C("Feeder"), "f", New("Feeder")), Decl(C("Cage", [C("Animal")]), "c", New("Cage", New("Animal"), targs=[C("Animal")])),
+                                Decl(C("Kennel", [C("Dog")]), "k", New("Kennel", New("Dog"), targs=[C("Dog")])), Echo(MCall(Var("c"), "serve", Var("f"))), Echo(MCall(Var("k"), "serve", Var("f")))])],
+        [animal, dog, feeder, cage, kennel])))
+    # 12. a static initialiser whose constructor call stores into statics of a class that has not been initialised yet
+    widget = Class("Widget", "", [Field(P("str"), "label")], [], [Ctor([Param(P("str"), "l0")], [Expr(FAsg(This(), "label", Var("l0"))), Expr(SFAsg("Registry", "latest", This())),
+                                                                                                   Expr(SFAsg("Registry", "registered", Bool(True))), Expr(SFAsg("Registry", "count", Bin("+", SFld("Registry", "count"), I(1))))])], [])
+    registry = Class("Registry", "", [Field(C("Widget"), "latest", Null(), static=True), Field(P("bool"), "registered", Bool(False), static=True), Field(P("int"), "count", I(100), static=True)],
+                     [Method("describe", [], P("str"), [If(Bin("==", Var("latest"), Null()), [Ret(S("nothing registered"))]), Ret(Bin("+", S("latest widget: "), Fld(Var("latest"), "label")))], static=True)],
+                     [], [], static=True)
+    defaults = Class("Defaults", "", [Field(C("Widget"), "panel", New("Widget", S("main panel")), static=True)], [], [], [], static=True)
+    out.append(("static initialiser storing into another class's statics", Program([
+        Func("main", [], VOID, [Echo(SFld("Registry", "registered")), Echo(SCall("Registry", "describe")), Echo(Fld(SFld("Defaults", "panel"), "label")), Echo(SFld("Registry", "count"))])],
+        [widget, registry, defaults])))
     return out
 
 
